@@ -8,6 +8,7 @@ import time
 from fractions import Fraction
 
 import numpy
+import cij.core.phonon_contribution.nonshear as NS
 
 from harness.common import Check, run_main, seed
 from harness import phonon_common as PC
@@ -152,7 +153,7 @@ def run_case(chk, cc, fm, lattice, tier, rng, system=None):
                      (fm, {"numpy": proxy_fm, "calculate_eulerian_strain": eps}),
                      (fm.FullThermalElasticModulus, {"get_axial_strains": axial_wrapper}),
                      (FILL, {"numpy": proxy_fill}),
-                     (tk, {"numpy": proxy_pl}), (sh, {"numpy": proxy_pl})):
+                     (tk, {"numpy": proxy_pl}), (sh, {"numpy": proxy_pl}), (NS, {"numpy": proxy_pl})):
             calc._apply_elastic_constants_symmetry()
             calc._interpolate_modes()
             calc.nv, calc.np, calc.nq, calc.na = calc.qha_input.nv, calc.qha_input.np, calc.qha_input.nq, calc.qha_input.na
